@@ -532,7 +532,19 @@ pub fn gen_mode(d: &mut Dec, p: &GenParams, name: &str) -> ModeSpec {
         let n = gen_named(d, p, false);
         let i = d.below(pats.len());
         let j = (i + 1 + d.below(pats.len() - 1)) % pats.len();
-        let atom = |neg: bool| Rx::Class(Class::Named(n.clone(), neg));
+        let extra_lit = gen_char(d);
+        let nested = d.chance(100);
+        let atom = |neg: bool| {
+            if nested {
+                // ... or nested in otherwise identical brackets
+                Rx::Class(Class::Bracket(Bracket {
+                    negated: false,
+                    set: ClassSet::Items(vec![ClassItem::Named(n.clone(), neg), ClassItem::Lit(extra_lit, LitForm::Verbatim)]),
+                }))
+            } else {
+                Rx::Class(Class::Named(n.clone(), neg))
+            }
+        };
         pats[i].rx = if d.bool() { atom(false) } else { Rx::Concat(vec![atom(false), pats[i].rx.clone()]) };
         pats[j].rx = if d.bool() { atom(true) } else { Rx::Concat(vec![atom(true), pats[j].rx.clone()]) };
     }
